@@ -93,6 +93,16 @@ func check(c diffCase) (fl *harness.Failure) {
 	}()
 	_, left, _ := gen.BuildTree(c.Left.Clone())
 	_, right, _ := gen.BuildTree(c.Right.Clone())
+	switch c.Kind {
+	case "same-instance":
+		right = left
+	case "shared-children":
+		_, right, _ = gen.BuildTree(&gen.NodeBP{Tag: c.Left.Tag, Value: c.Left.Value, Pointer: c.Left.Pointer})
+		kids := left.Nodes()
+		for i := len(kids) - 1; i >= 0; i-- {
+			right.AddNode(kids[i])
+		}
+	}
 	leftText, rightText := tu.Text(left), tu.Text(right)
 	leftCount, rightCount := tu.Count(left), tu.Count(right)
 	ld, rd := depths(left), depths(right)
@@ -306,17 +316,21 @@ func shuffleAll(rt *rapid.T, root *gen.NodeBP) *gen.NodeBP {
 
 func TestCheckDiff(t *testing.T) {
 	s := harness.NewSub("diff-accounting-and-purity",
-		"pairs of trees (as in C07: all node kinds, duplicate and same-kind siblings): independent trees with the same root tag, a tree and its permuted copy, a tree and a copy with 1..3 uniquely tagged leaves inserted on either side under plain parents; then a random sequence of 0..6 operations from {String, IsDeepEqual, Sort, Tag, CompareAgain}; after CompareNodes and after every operation: entry sides are identity nodes of the right input at the right depth, every input node is represented, unique leaves are one-sided on the correct side, deep-equal inputs give an all-two-sided diff, and both inputs' GEDCOM text and node counts are unchanged; non-trivial = both trees >= 3 nodes and (Sort in the sequence or a one-sided leaf)")
+		"pairs of trees (as in C07: all node kinds, duplicate and same-kind siblings): independent trees with the same root tag, a tree and its permuted copy, a tree and a copy with 1..3 uniquely tagged leaves inserted on either side under plain parents, a tree and itself (the same objects on both sides), a tree and another root over the same child objects in reverse order; then a random sequence of 0..6 operations from {String, IsDeepEqual, Sort, Tag, CompareAgain}; after CompareNodes and after every operation: entry sides are identity nodes of the right input at the right depth, every input node is represented, unique leaves are one-sided on the correct side, deep-equal inputs give an all-two-sided diff, and both inputs' GEDCOM text and node counts are unchanged; non-trivial = both trees >= 3 nodes and (Sort in the sequence or a one-sided leaf)")
 	s.Rapid(t, harness.Share(harness.Pick(150000, 10000000)), 80, func(rt *rapid.T) {
 		left := gen.EqTree(gen.EqTreeOpts{MaxNodes: 18, Roles: true}).Draw(rt, "left")
 		c := diffCase{Left: left}
-		c.Kind = rapid.SampledFrom([]string{"independent", "permuted-copy", "leaves-inserted", "leaves-inserted"}).Draw(rt, "kind")
+		c.Kind = rapid.SampledFrom([]string{"independent", "permuted-copy", "leaves-inserted", "leaves-inserted", "leaves-inserted", "same-instance", "shared-children"}).Draw(rt, "kind")
 		oneSided := false
 		switch c.Kind {
 		case "independent":
 			c.Right = gen.EqTree(gen.EqTreeOpts{MaxNodes: 18, Roots: []string{left.Tag}, Roles: true}).Draw(rt, "right")
 		case "permuted-copy":
 			c.Right = shuffleAll(rt, left)
+		case "same-instance", "shared-children":
+			// the right tree is the left tree itself, or another root over the same child
+			// objects in another order (the check builds it from the left tree)
+			c.Right = left.Clone()
 		default:
 			c.Left = left.Clone()
 			c.Right = shuffleAll(rt, left)
